@@ -6,6 +6,7 @@ package main
 
 import (
 	"encoding/json"
+	"flag"
 	"fmt"
 	"math"
 	"path/filepath"
@@ -20,9 +21,9 @@ func nodeJSON(field string, it Item) map[string]interface{} {
 	var id interface{} = it.Key
 	if field != "itemsS" {
 		n, _ := strconv.ParseInt(it.Key, 10, 64)
-		id = float64(n)
+		id = n
 	}
-	return map[string]interface{}{"__key": id, "id": id, "t0": it.T[0], "n0": float64(it.N[0])}
+	return map[string]interface{}{"__key": id, "id": id, "t0": it.T[0], "n0": it.N[0]}
 }
 
 func coqNode(field string, it Item) string {
@@ -202,6 +203,9 @@ func wellFormed(c *Case) string {
 	if c.Kind != "page" && c.K < 1 {
 		return "walk with page size < 1"
 	}
+	if c.Kind != "page" && c.Panic {
+		return "walk with panicking field functions"
+	}
 	if c.Kind != "page" && externallyManaged(c) {
 		return "walk over an externally managed connection"
 	}
@@ -227,7 +231,13 @@ func wellFormed(c *Case) string {
 }
 
 func main() {
+	probe := flag.String("probe", "", "internal: run the one page query of the case in this file and print the result")
 	o := vh.ParseFlags()
+	if *probe != "" {
+		probeMain(*probe)
+		return
+	}
+	scratchDir = o.Out
 	run := vh.NewRun("C11", o)
 	run.Rule = "fields: thunder-managed (int64 key, string key, pointer nodes, no filter/sort fields), externally managed (PaginationInfo/PostProcessOptions), ManualPaginationWithFallback; sort values int64/uint64/float64/string; default and custom (filterType) text filters; texts ASCII + Latin-1 (code points >= U+0100: oracle only, counted as excluded-from-model). 50% single page queries (first/last/after/before incl. unknown cursors, both cursors, first+last, negative sizes; filter text/fields; sort field/order), 25% forward walks, 25% backward walks (page size 1-7) over lists of 0-40 elements with unique keys; filter/sort field implementation (plain, expensive, batch, batch-with-fallback) drawn per field; non-trivial = the list has >= 2 elements and the case returns at least one non-empty page without error; distinct by JSON text of the case"
 	// consecutive seeds of vh.NewRng give the same stream shifted by one draw; root the generator at a
@@ -276,7 +286,7 @@ func main() {
 		}
 	}
 
-	const shard = 76 // 600 cases = 8 files, one per worker of the model evaluator
+	const shard = 61 // 480 cases + corpus = 8 files, one per worker of the model evaluator
 	shrunk := 0
 	var terms []string
 	start := 0
@@ -365,6 +375,10 @@ func main() {
 		if searching {
 			continue
 		}
+		if c.Panic {
+			run.Hist("excluded-from-model:panicking field functions (process-survival probe)")
+			continue
+		}
 		if why := outsideModel(c); why != "" {
 			run.Hist("excluded-from-model:" + why)
 			continue
@@ -380,8 +394,16 @@ func main() {
 }
 
 // evalCase runs one case against the implementation and evaluates the oracle on its pages.
+var scratchDir = "."
+
 func evalCase(schema *graphql.Schema, c *Case) (pages []pageResult, fails []oracleFailure) {
 	finished := true
+	switch {
+	case c.Panic:
+		p := runPageIsolated(scratchDir, c, c.Args)
+		pages = append(pages, p)
+		return pages, checkPanicPage(c, p)
+	}
 	switch c.Kind {
 	case "page":
 		p := runPage(schema, c, c.Args)
